@@ -28,14 +28,16 @@ fn main() {
             i += 1;
         }
     }
-    if args[1] != "sched" {
+    if args[1] != "sched" && args[1] != "stress" {
         guard::install_single_thread_lock_hook();
     }
     let out: Value = match args[1].as_str() {
         "sched" => sched::explore(&opts),
+        "stress" => sched::stress(&opts),
         "replay-adj" => adj::replay(&opts),
         "record-adj" => adj::record(&opts),
         "replay-search" => search::replay(&opts),
+        "one-case" => search::one_case(&opts),
         "record-search" => search::record(&opts),
         "compare-table" => search::compare_table(&opts),
         "replay-scc" => search::replay_scc(&opts),
